@@ -363,6 +363,12 @@ static int fs_prestate(bool *foreign, int *pLastMs)
         int fms = vf_range(0, 2);                      // modification time within the day
         int sz0 = vf_range(1, VF_SMAX), sz1 = vf_range(1, VF_SMAX);
         if (!exists) cnt = 0;
+#ifdef VF_ACTIVE_FIXED
+        // jobs in which the day of the active file differs from the clock day when the sink initialises: the length of the active file
+        // decides which of the two days becomes the current log date, so it is made a constant (1: exactly one one-character record,
+        // 2: empty) -- otherwise the date string, the expressions built from it and their compilation become symbolic (no verdict)
+        if (active) { cnt = VF_ACTIVE_FIXED == 1 ? 1 : 0; sz0 = 1; }
+#endif
         QByteArray content; content = QByteArray("");
         if (exists) {
             vf_assume(active || cnt >= 1);               // only non-empty files are ever rotated
@@ -492,6 +498,9 @@ extern "C" void h_fs_crash()
         int tick = vf_range(0, 2); const int dday = (VF_DDAY >> 1) & 1;
         ms += tick; day += dday; if (dday) ms = 0;
         env_clock(day, ms);
+#ifdef VF_RESTART_L0
+        g_L = 0;          // the sink started afterwards has no size limit in this job (it only appends; startup / daily rotation as configured)
+#endif
         make_sink();
         int size = vf_range(1, VF_SMAX);
         RecInfo &ri = g_rec[nwritten];
